@@ -1,12 +1,14 @@
 #!/bin/sh
-# development helper: import every finished round-2 seeded change that is not stored yet and run its property's quick check
+# development helper: import every finished seeded change of round $1 (default 2) that is not stored yet and run its
+# property's quick check:  tools/seeded_sync.sh 3
 cd "$(dirname "$0")/.." || exit 3
-for d in /tmp/lena-mut2/out-C*; do
+r=${1:-2}
+for d in /tmp/lena-mut$r/out-C*; do
   id=$(basename $d | sed 's/out-//')
   for k in 1 2; do
-    n=$((k+2))
+    n=$((k+2*(r-1)))
     if [ -f $d/patch_$k.diff ] && [ -f $d/demo_$k.py ] && [ -f $d/meta_$k.json ] && [ ! -d seeded/$id-$n ]; then
-      python3 tools/seeded.py import $id $k --round 2 2>&1 | grep -v WARNING | tail -1
+      python3 tools/seeded.py import $id $k --round $r 2>&1 | grep -v WARNING | tail -1
       [ -d seeded/$id-$n ] && python3 tools/seeded.py run $id-$n 2>&1 | tail -1
     fi
   done
